@@ -47,3 +47,12 @@ From XV Require Proofs.PySeparatorProofs.
 Theorem C08_translated_separator_roundtrip : PySeparatorProofs.translated_separator_statement.
 Proof. exact PySeparatorProofs.translated_separator. Qed.
 Print Assumptions C08_translated_separator_roundtrip.
+
+(* ---- xitorch/_utils/misc.py:TensorPacker.__init__ as translated from /repo on this run (Gen/PyTensorPacker.v, tensors
+   modelled by their shapes): contiguous (start, finish, shape) triples, and cutting the concatenated flat payload at these
+   offsets returns every tensor's payload, for EVERY list of shapes (tuple-valued states).  Statement:
+   Proofs/PyTensorPackerProofs.v, translated_tensorpacker_statement. ---- *)
+From XV Require Proofs.PyTensorPackerProofs.
+Theorem C08_translated_tensorpacker_slices : PyTensorPackerProofs.translated_tensorpacker_statement.
+Proof. exact PyTensorPackerProofs.translated_tensorpacker. Qed.
+Print Assumptions C08_translated_tensorpacker_slices.
